@@ -56,6 +56,9 @@ pub fn run(case: &Value, ctx: &Ctx) -> Outcome {
         ("pow2", (0..n).map(|p| (2.0f64).powi((p % 48) as i32) + (p / 48) as f64).collect(), 0.0),
         ("real", (0..n).map(|_| rng.gen::<f64>() * 1e3 - 200.0).collect(), 1e-12),
     ];
+    // sparse spectra: most mirror pairs are zero on both sides (an entry that must fold to 0, not to the fill)
+    inputs.push(("sparse", (0..n).map(|p| if p % 3 == 1 { (p + 2) as f64 } else { 0.0 }).collect(), 0.0));
+    inputs.push(("all-zero", vec![0.0; n], 0.0));
     if hist.len() == 1 {
         let pool = [-0.0, 5e-324, -2.5e-310, 1e300, -1e300, 1.0 / 3.0, 123456.789, f64::MAX / 4.0];
         // not bit-exact: averaging a self-mirrored diagonal cell as 0.5*x + 0.5*x underflows for the
@@ -90,7 +93,8 @@ pub fn run(case: &Value, ctx: &Ctx) -> Outcome {
 
     // the binary: a single fold, optionally of the mirrored input
     if hist == ["fold"] || hist == ["mirror", "fold"] {
-        let x0 = &inputs[0].1;
+        for which in [0usize, 2] {
+        let x0 = &inputs[which].1;
         let fed = if hist.len() == 2 { mirror(&shape, x0) } else { x0.clone() };
         let text = cli::write_text(&shape, &fed, 0);
         for (fname, fill) in FILLS {
@@ -103,6 +107,7 @@ pub fn run(case: &Value, ctx: &Ctx) -> Outcome {
                 }
                 (_, e) => out.fail(if r.panicked() { "fold/cli/panic" } else { "fold/cli/error" }, json!({"fill": fname, "code": r.code, "stderr": r.stderr, "parse": format!("{e:?}")})),
             }
+        }
         }
     }
     out
